@@ -62,4 +62,25 @@ def env4 (x a b c : ℝ) : ℕ → ℝ := fun k => match k with | 0 => x | 1 => 
 @[simp] lemma env4_2 (x a b c : ℝ) : env4 x a b c 2 = b := rfl
 @[simp] lemma env4_3 (x a b c : ℝ) : env4 x a b c 3 = c := rfl
 
+lemma bc_ofFn {n : ℕ} (f : Fin n → ℝ) (j : Fin n) : bc (0:ℝ) (List.ofFn f) j = f j := by
+  unfold bc
+  have hj : (j : ℕ) < (List.ofFn f).length := by simp
+  split_ifs with h
+  · have hn : n = 1 := by simpa using h
+    subst hn
+    have : j = 0 := Subsingleton.elim _ _
+    subst this
+    simp
+  · simp [List.getD_eq_getElem?_getD]
+
+lemma bcLen_ofFn3 {n : ℕ} (x a b : Fin n → ℝ) : bcLen (List.ofFn x) [List.ofFn a, List.ofFn b] = n := by
+  simp [bcLen]
+
+/-- component environments of an i.i.d. family with per-component parameters `a`, `b` -/
+lemma iid_ofFn_eq_sum {n : ℕ} (comp : RExpr) (x a b : Fin n → ℝ) :
+    iid eval 0 comp (List.ofFn x) [List.ofFn a, List.ofFn b]
+      = ∑ i : Fin n, eval (env 0 (List.ofFn x) [List.ofFn a, List.ofFn b] i) comp := by
+  unfold iid
+  rw [sumTo_eq_sum, bcLen_ofFn3, Finset.sum_range]
+
 end CuqiVerif.C04
